@@ -190,13 +190,14 @@ def convert_format_book(wb):
     return {"meta": {"version": "0.1.0"}, "sheets": out}
 
 
-def read_all_formats(wb, scratch, stray=None):
+def read_all_formats(wb, scratch, stray=None, reuse=None):
     """Write wb in the three formats, read with the three real readers.
-    Returns dict fmt -> ('ok', {name: (headers, rows)}) | ('err', kind, msg), plus details."""
+    Returns dict fmt -> ('ok', {name: (headers, rows)}) | ('err', kind, msg), plus details.
+    reuse: a directory an earlier call wrote (its "dir"): the files are overwritten in place, the paths stay the same."""
     from rpft import converters
     from rpft.parsers import sheets
 
-    d = tempfile.mkdtemp(prefix="wb", dir=scratch)
+    d = reuse or tempfile.mkdtemp(prefix="wb", dir=scratch)
     csv_dir = os.path.join(d, "csv")
     write_csv_folder(wb, csv_dir)
     xlsx = os.path.join(d, "wb.xlsx")
@@ -979,6 +980,20 @@ def _run(ctx, v, rng, m, thorough, scratch):
                     n_fail[key] += 1
                 summary = {f: (r[0], r[1] if r[0] == "ok" else r[1:]) for f, r in res.items()}
                 v.failing_input(key, f"readers disagree on {wb!r} (stray={stray!r}): {summary!r}"[:1500], dict(fn="readers", wb=wb, stray=stray))
+        # ---- the same paths, a revised workbook: the files are overwritten in place (same sheet names, other cells) and
+        # read again in this process; what is read must be the revised content, in every format
+        if cls == "domain" and rng.random() < 0.3:
+            wb_rev = {n: (h, [[(c + "~" + str(i)) if c else c for c in r] for i, r in enumerate(rows)]) for n, (h, rows) in wb.items()}
+            if wb_rev != wb:
+                wb_dist["revised_in_place"] = wb_dist.get("revised_in_place", 0) + 1
+                v.coverage["evaluations"] += 1
+                res2, det2 = read_all_formats(wb_rev, scratch, stray, reuse=det["dir"])
+                ok2 = formats_oracle(res2) and res2["csv"][0] == "ok" and res2["csv"][1] == {n: (h, rows) for n, (h, rows) in wb_rev.items()}
+                if not ok2:
+                    summary = {f: (r[0], r[1] if r[0] == "ok" else r[1:]) for f, r in res2.items()}
+                    v.failing_input("stale-read-after-revision",
+                                    f"a workbook overwritten in place ({wb!r} -> {wb_rev!r}, same paths) is not read as revised: {summary!r}"[:1500],
+                                    dict(fn="readers_revision", wb=wb, wb_rev=wb_rev, stray=stray))
         shutil.rmtree(det["dir"], ignore_errors=True)
     stats["reader_workbooks"] = wb_dist
     stats["reader_findings_seen"] = n_fail
@@ -1113,6 +1128,14 @@ def replay(rep):
             for f, x in res.items():
                 print(" ", f, x)
             return formats_oracle(res) and res["csv"][0] == "ok"
+        if r["fn"] == "readers_revision":
+            stray = {n: tuple(x) for n, x in r["stray"].items()} if r.get("stray") else None
+            wb_rev = {n: (list(t[0]), [list(x) for x in t[1]]) for n, t in r["wb_rev"].items()}
+            res, det = read_all_formats(wb, scratch, stray)
+            res2, det2 = read_all_formats(wb_rev, scratch, stray, reuse=det["dir"])
+            for f, x in res2.items():
+                print(" ", f, x)
+            return formats_oracle(res2) and res2["csv"][0] == "ok" and res2["csv"][1] == {n: (h, rows) for n, (h, rows) in wb_rev.items()}
         if r["fn"] == "compile":
             res, det = read_all_formats(wb, scratch)
             comp = compile_all_formats(det)
